@@ -49,6 +49,11 @@ func NewSolver(bin string, args ...string) (*Solver, error) {
 		return nil, err
 	}
 	s := &Solver{cmd: cmd, inc: in, in: bufio.NewWriterSize(in, 1<<20), out: bufio.NewReaderSize(out, 1<<20), P: NewPrinter(), Portfolio: map[string]int{}}
+	if dir := os.Getenv("GOSYM_SOLVER_LOG"); dir != "" {
+		if f, err := os.Create(fmt.Sprintf("%s/solver-%d-%d.smt2", dir, os.Getpid(), cmd.Process.Pid)); err == nil {
+			s.Log = f
+		}
+	}
 	return s, nil
 }
 
